@@ -22,6 +22,7 @@ TABLE = [
  ("regress/C18/direct-state-overwritten-before-notified.json", "7c952f8"),
  ("regress/C10/trusted-after-unregister-connection-ended-by-itself-1ff4d72.json", "1ff4d72"),
  ("regress/C05/replaced-double-connection-set-up-last.json", "937fc09"),
+ ("regress/C18/loser-reports-between-close-and-close-reported.json", "1790497"),
 ]
 pairs = TABLE
 if len(sys.argv) > 2:
